@@ -22,7 +22,7 @@ func genXzStream(rng *rand.Rand, dp *DriverPool, maxOps int) (stream, content []
 	var allContent []byte
 	var dk []string
 	for b := 0; b < nblocks; b++ {
-		dc := rng.Intn(8) // 4 KiB … 48 KiB windows keep edge distances reachable
+		dc := rng.Intn(8)            // 4 KiB … 48 KiB windows keep edge distances reachable
 		bigDict := rng.Intn(40) == 0 // a declared dictionary above the reader's 8 MiB default (the generator still keeps distances small)
 		if rng.Intn(4) == 0 {
 			dc = 8 + rng.Intn(12)
